@@ -102,7 +102,8 @@ def build(case):
 def check_case(case, stats=None):
     p = case["p"]
     reg = build(case)
-    h = HyperLogLog(p, 0)
+    ptype = [int, np.uint8, np.int64, np.uint16, np.int8, np.uint64][case["rs"] % 6]
+    h = HyperLogLog(ptype(p), 0)
     h.registers[:] = reg
     decoy = HyperLogLog(7 if p != 7 else 13, 3)  # a younger sketch of another precision exists while h is queried
     decoy.add(b"decoy")
